@@ -25,7 +25,7 @@ RULE = ("requests concentrated at the limits: integer results needing SIZE-1 / S
         "a limit (result > SIZE digits, buffer < need, n = 0, invalid selector, injected fault)")
 ASSUMPTIONS = ["objects are created through the library's own constructors and never forged (used <= alloc, normalised)",
                "value correctness below the limits is decided by C01/C02/C03/C07/C09; here only fit-or-error"]
-BUDGET_S = {"quick": 240, "thorough": 1500}
+BUDGET_S = {"quick": 330, "thorough": 1500}
 JOB_SIZE = {"quick": 2500, "thorough": 6000}
 
 _INFO = {}
@@ -870,5 +870,48 @@ TARGETS = [
     Target("alloc-faults", strat_fault, run_fault, {"quick": ["dyn"], "thorough": ["dyn"]}, quick=64, thorough=400,
            job_size={"quick": 4, "thorough": 12}),
 ]
+
+
+
+# ------------------------------------------------------------------ part 1 made explicit: scratch arrays of the curve layers
+# The scalar multiplications, fixed-base tables and simultaneous multiplications of the prime, extension-field and binary
+# curves and of the pairing groups hold their recodings and tables in stack arrays sized from the field bits and window
+# widths ("scalars that reduce to zero or have zero digits inside recodings", "counts n >= 0"). Their generators and
+# runners live with the value oracles (C03 / C11 / C16 / C12 / C17); here the SAME cases are run for the memory clause
+# alone: a sanitizer report, a crash or a broken handler chain is a C08 violation, a wrong value is not (it belongs to the
+# other property and is dropped here), so that this check decides C08 for those call sites by itself.
+
+def _mem_only(run):
+    def f(env, cfg, case):
+        try:
+            return run(env, cfg, case)
+        except Violation as v:
+            if v.details.get("crash") or v.details.get("ub"):
+                raise
+            return False
+    return f
+
+
+def _piggy():
+    import importlib
+    out = []
+    plan = [("c03", {"ep-mul": 3000, "ep-fix": 1500, "ep-sim": 2000}, ["base256"]),
+            ("c11", {"ep2-mul": 1500, "ep2-fix": 900, "ep2-sim": 1200}, ["base256"]),
+            ("c16", {"eb-mul": 1600, "eb-fix": 800, "eb-sim": 1000}, ["base256"]),
+            ("c12", {"mul-g1": 600, "mul-g2": 400, "exp-gt": 300}, ["base256"]),
+            ("c17", {"ed-mul": 1500, "ed-fix": 800, "ed-sim": 800}, ["p255"])]
+    for modname, names, cfgs in plan:
+        m = importlib.import_module("props." + modname)
+        seen = set()
+        for t in m.TARGETS:
+            if t.name in names and t.name not in seen and set(cfgs) <= set(t.cfgs["quick"]):
+                seen.add(t.name)
+                q = names[t.name]
+                out.append(Target("mem:" + t.name, t.strategy, _mem_only(t.run), {"quick": cfgs, "thorough": cfgs},
+                                  quick=q, thorough=q * 5, needs=t.needs, job_size={"quick": 500, "thorough": 1500}))
+    return out
+
+
+TARGETS += _piggy()
 
 KNOWN_PREDICATES = {}
